@@ -302,6 +302,13 @@ func parsePossibilityOperator(input *input, version *VersionRelation) error {
 	leader := input.Next() /* may be 0 */
 
 	if leader == '=' {
+		switch input.Peek() {
+		case '=', '<', '>': /* ==, =< and => are not operators */
+			return fmt.Errorf(
+				"Unknown Operator in Possibility Version modifier: =%c",
+				input.Peek(),
+			)
+		}
 		/* Great, good enough. */
 		version.Operator = "="
 		return nil
